@@ -26,6 +26,10 @@ func c06LeaderProg(r *rand.Rand, client, n int, big bool) []Cmd {
 			p = append(p, hookCmd(r, g))
 		case x < 3:
 			p = appendScript(p, r, scriptCmd(r, g))
+		case x < 5:
+			// pub/sub traffic: the leader forwards published messages over its replication
+			// connections too, in between the pieces of the log
+			p = append(p, Cmd{Args: []string{"PUBLISH", []string{"news", "ch0", "zz"}[r.Intn(3)], fmt.Sprintf("m%d-", g.uniq()) + strings.Repeat("p", r.Intn(3000))}})
 		case x < 9 && big:
 			p = append(p, Cmd{Args: []string{"SET", "kbig", fmt.Sprintf("b%d", r.Intn(6)), "STRING", fmt.Sprintf("v%d-", g.uniq()) + strings.Repeat("x", 50000+r.Intn(30000))}})
 		default:
